@@ -142,6 +142,12 @@ def gen(rng, tier, run):
             cmds.append({'k': 'squeeze', 'dst': dst, 'src': src})
             bind(dst, [n for n in shapes[src] if n != 1])
     case = {'vars': variables, 'cmds': cmds}
+    if ndim and rng.random() < 0.15:
+        # masked datasets (np.ma): no Lean counterpart; the oracle checks that operands (values, errors, bins AND masks) are
+        # left untouched and that results are well formed
+        size = len(variables[0]['value'])
+        case['masks'] = [[rng.random() < 0.3 for _ in range(len(v['value']))] for v in variables]
+        case['cmds'] = [c for c in cmds if c['k'] in ('arith', 'copy')]
     if not pokes_legal(case):
         case['cmds'] = [c for c in cmds if c['k'] != 'poke']
     return case
@@ -215,7 +221,8 @@ def snapshot(ds):
     if ds is None:
         return None
     return (np.asarray(ds.value).tobytes(), np.asarray(ds.error).tobytes(), np.shape(ds.value),
-            [(k, np.asarray(v).tobytes()) for k, v in ds.bins.items()], ds.what, ds.name)
+            [(k, np.asarray(v).tobytes()) for k, v in ds.bins.items()], ds.what, ds.name,
+            np.ma.getmaskarray(ds.value).tobytes(), np.ma.getmaskarray(ds.error).tobytes())
 
 
 def classify(exc):
@@ -246,6 +253,8 @@ def run_impl(case, run):
     warnings.simplefilter('ignore')
     np.seterr(all='ignore')
     store = [to_dataset(d) for d in case['vars']]
+    if case.get('masks'):
+        store = [d.mask(np.array(m, dtype=bool).reshape(np.shape(d.value))) for d, m in zip(store, case['masks'])]
     errs, facts = [], []
 
     def put(i, d):
@@ -363,6 +372,8 @@ def check_result(cmd, left, right, res, before):
 
 
 def run_model(case, driver, run):
+    if case.get('masks'):
+        return {'skipped': True}
     return driver.ask('dset', {'vars': case['vars'], 'cmds': [{k: v for k, v in c.items() if k != 'int'} for c in case['cmds']],
                                'pinned': False})
 
@@ -381,6 +392,8 @@ def close(a, b, ulps=4):
 
 def compare(case, impl, model):
     from vcheck.runner import first_diff
+    if model.get('skipped'):
+        return None
     if impl['errs'] != model['errs']:
         return first_diff({'errs': impl['errs']}, {'errs': model['errs']})
     iv, mv = impl['vars'], model['vars']
@@ -414,6 +427,8 @@ def oracle(case, impl, run):
             run.count('raised:' + err.split(':')[0])
             if err not in ('shape', 'binNames', 'binValues'):
                 fails.append(('no_other_exception', err))
+    if case.get('masks'):
+        run.count('masked datasets')
     for fact in impl['facts']:
         i = fact['i']
         if fact.get('modified'):
@@ -428,13 +443,13 @@ def oracle(case, impl, run):
             what = f"command #{i}: v{cmd['src']} {cmd['op']} {cmd['rhs']['k']}"
             if not fact['shape_ok']:
                 fails.append(('result_wf', what + ': value/error shapes differ from the left operand'))
-            if not fact['value_ok']:
+            if not fact['value_ok'] and not case.get('masks'):
                 fails.append(('value_plain_op', what + ': value is not the plain array operation'))
             if not fact['bins_ok']:
                 fails.append(('bins_of_left_kept', what + ': bins of the left operand not kept'))
             if not fact['err_nonneg']:
                 fails.append(('err_nonneg', what + ': negative error from non-negative errors'))
-            if not fact['err_rule']:
+            if not fact['err_rule'] and not case.get('masks'):
                 fails.append(('err_rule', what + ': error is not the first-order uncorrelated error'))
             if fact.get('rel_cells'):
                 run.count('relative-error cells checked')
